@@ -235,7 +235,7 @@ Definition check_1404 (fs : list field) : verdict :=
 
 (* ------------------------------------------------------------------ 1405 IDL elaboration *)
 
-(* finding 1408: the functions a service inherits from a service of an INCLUDED file are compiled with the included file's tree but
+(* finding 1408 (fixed by d1874f3; this quirk model is only the recogniser of a regression): the functions a service inherits from a service of an INCLUDED file are compiled with the included file's tree but
    with the compiling cache of the main file (thrift/idl.go parse: one structsCache for all funcTreePairs), so a bare struct
    name of the included file that also names a struct-like of the main file compiled before (same parse target) resolves to the
    main file's descriptor.  Quirk model: the included files' struct-likes shadowed by the main file's of the same name. *)
